@@ -19,6 +19,7 @@ import (
 	"encoding/xml"
 	"errors"
 	"fmt"
+	"runtime/debug"
 	"strings"
 	"time"
 
@@ -402,6 +403,10 @@ func jdkProbe(arg sx.V) sx.V {
 }
 
 func init() {
+	// A runaway recursion is a fatal error in Go (not a panic); with a smaller stack limit the
+	// process dies quickly and the driver bisects to the input.  1000-deep property chains need
+	// well under a megabyte.
+	debug.SetMaxStack(64 << 20)
 	register("pom", pomHandler(false))
 	register("pomxml", pomHandler(true))
 	register("pomrender", func(arg sx.V) sx.V {
